@@ -87,6 +87,25 @@ func httpServeContent(w http.ResponseWriter, r *http.Request, modtime time.Time,
 		ranges = nil
 	}
 
+	if r.Header.Get("Range") != "" && r.Method != http.MethodHead {
+		// The caller positioned content at the first range it found in the
+		// request (see 4. above). That is not always where the response
+		// starts: no range is honoured when If-Range does not match or the
+		// ranges add up to more than the file, and a first range that lies
+		// beyond the end of the file is skipped. Seekable content is put
+		// where the response really starts.
+		if s, ok := content.(io.Seeker); ok {
+			var start int64
+			if len(ranges) > 0 {
+				start = ranges[0].start
+			}
+			if _, err := s.Seek(start, io.SeekStart); err != nil {
+				http.Error(w, "cannot position content: "+err.Error(), http.StatusInternalServerError)
+				return
+			}
+		}
+	}
+
 	// We only support a single range request, if more than one is submitted we just send back the first
 	if len(ranges) > 0 {
 		ra := ranges[0]
